@@ -679,7 +679,12 @@ impl Em<'_> {
                 if self.results.is_empty() && self.rng.chance(1, 3) {
                     self.out.push(Ins::Return);
                 } else {
-                    self.out.push(Ins::Unreachable);
+                    if self.rng.chance(1, 4) {
+                        // an exception nobody catches (tag 0 has no parameters)
+                        self.out.push(Ins::Throw(0));
+                    } else {
+                        self.out.push(Ins::Unreachable);
+                    }
                     self.info.unreachables.push((uidx, pre));
                 }
                 let m_fall = self.mark();
@@ -823,6 +828,8 @@ pub fn gen_program(rng: &mut Rng, rich: bool) -> (ModuleSpec, ProgInfo) {
             index: N_HOST + k as u32,
         });
     }
+    let tag_ty = types.intern(&[], &[]);
+    m.tags.push(tag_ty);
     m.types = types.groups;
     m.elems.push(ElemSpec {
         mode: ElemMode::Declared,
